@@ -141,8 +141,15 @@ def regen(ctx):
                 ctx.say("regenerated Gen/%s.v (changed)" % g)
 
 
-def coq_build(ctx):
+def coq_build(ctx, which="all"):
     targets = ctx.cfg["coq_targets"]
+    is_proof = lambda t: t.startswith("Props/") or t.startswith("Proofs/")
+    if which == "model":
+        targets = [t for t in targets if not is_proof(t)]
+    elif which == "proof":
+        targets = [t for t in targets if is_proof(t)]
+    if not targets:
+        return
     with Lock("coq"):
         mk, cp = os.path.join(COQ, "Makefile"), os.path.join(COQ, "_CoqProject")
         sh([sys.executable, os.path.join(VERIF, "tools", "gen_coqproject.py")])
@@ -667,12 +674,28 @@ def main():
     try:
         build_harness(ctx)
         regen(ctx)
-        coq_build(ctx)
-        hygiene(ctx)
-        assumptions(ctx)
+        coq_build(ctx, "model")
+        # proof obligations (incl. those over regenerated Gen files).  If one breaks, the search on
+        # the model and the implementation still runs: a concrete failing input is the better replay
+        pending = None
+        try:
+            coq_build(ctx, "proof")
+            hygiene(ctx)
+            assumptions(ctx)
+        except Violation as pv:
+            pending = pv
+            ctx.say("  proof obligation broken (%s); searching for a failing input" % pv.summary)
         for hook in ctx.cfg.get("pre", []):
             hook(ctx)
-        correspondence(ctx)
+        try:
+            correspondence(ctx)
+        except Violation as cv:
+            if pending is not None and isinstance(cv.detail, dict):
+                cv.detail["broken_obligation"] = pending.summary
+                cv.detail["broken_obligation_detail"] = pending.detail if isinstance(pending.detail, str) else ""
+            raise
+        if pending is not None:
+            raise pending
         for hook in ctx.cfg.get("post", []):
             hook(ctx)
         if ctx.tier == "thorough":
